@@ -397,13 +397,18 @@ class SparselyBin(Factory, Container):
         # >>> np.divide(q,1,q)
         # >>> np.floor(q,q)
         q = np.array(q, dtype=np.float64)
-        neginfs = np.isneginf(q)
-        posinfs = np.isposinf(q)
+        nans = np.isnan(q)
 
         np.subtract(q, self.origin, q)
         np.divide(q, self.binWidth, q)
         np.floor(q, q)
+        # saturate like SparselyBin.bin does (infinities and finite values beyond the 64-bit range);
+        # casting such values to int64 is undefined
+        neginfs = q <= LONG_MINUSINF
+        posinfs = q >= LONG_PLUSINF
+        q[nans | neginfs | posinfs] = 0.0
         q = np.array(q, dtype=np.int64)
+        q[nans] = LONG_NAN
         q[neginfs] = LONG_MINUSINF
         q[posinfs] = LONG_PLUSINF
 
